@@ -122,6 +122,62 @@ theorem placeFiles_ok_enclosed {c : Cfg} {chk : Bool} {root : Path} {es : List E
           · next p hp => rw [hp]; rfl
       · exact ih h e hm
 
+/-- The entries the placing loop places completely (mode recorded) carry names accepted by
+`enclosed_name`, whether or not the loop then fails. -/
+theorem placed_enclosed (c : Cfg) (chk : Bool) (root : Path) (es : List EntryView) (fs : FS) :
+    ∀ e ∈ es.take (placedCount c chk root es fs), (enclosedName e.name).isSome = true := by
+  induction es generalizing fs with
+  | nil => intro e he; simp at he
+  | cons e0 es ih =>
+    intro e hm
+    simp only [placedCount] at hm
+    split at hm
+    · simp at hm
+    · next fs2 he =>
+      rw [List.take_succ_cons] at hm
+      rcases List.mem_cons.mp hm with rfl | hm
+      · unfold placeFile at he
+        split at he
+        · cases he
+        · split at he
+          · cases he
+          · next p hp => rw [hp]; rfl
+      · exact ih fs2 e hm
+
+/-- A run of the placing loop that succeeds has placed every entry. -/
+theorem placedCount_ok {c : Cfg} {chk : Bool} {root : Path} {es : List EntryView} {fs fs1 : FS}
+    (h : placeFiles c chk root es fs = (fs1, none)) : placedCount c chk root es fs = es.length := by
+  induction es generalizing fs with
+  | nil => rfl
+  | cons e0 es ih =>
+    simp only [placeFiles] at h
+    simp only [placedCount, List.length_cons]
+    split at h
+    · cases h
+    · next fs2 he => rw [ih h]
+
+/-- After a run of the placing loop that succeeds over `pre` and then fails at `e`: `pre` is what was
+placed. -/
+theorem placedCount_at (c : Cfg) (chk : Bool) (root : Path) (pre post : List EntryView) (e : EntryView)
+    (fs fs1 : FS) (hpre : placeFiles c chk root pre fs = (fs1, none))
+    (he : (placeFile c chk root e fs1).2.isSome = true) :
+    placedCount c chk root (pre ++ e :: post) fs = pre.length := by
+  induction pre generalizing fs with
+  | nil =>
+    simp only [placeFiles, Prod.mk.injEq] at hpre
+    obtain ⟨rfl, _⟩ := hpre
+    simp only [List.nil_append, placedCount, List.length_nil]
+    split
+    · rfl
+    · next fs2 h2 => rw [h2] at he; cases he
+  | cons a pre ih =>
+    simp only [placeFiles] at hpre
+    simp only [List.cons_append, placedCount, List.length_cons]
+    split at hpre
+    · cases hpre
+    · next fs2 h2 =>
+      rw [ih fs2 hpre]
+
 theorem applyModes_steps (c : Cfg) (root : Path) (ms : List (Name × Option Nat)) (fs : FS)
     (hs : ∀ m ∈ ms, (enclosedName m.1).isSome = true) : Steps root fs (applyModes c root ms fs).1 := by
   induction ms generalizing fs with
@@ -141,7 +197,12 @@ theorem extractSeek_steps (c : Cfg) (root : Path) (es : List EntryView) (fs : FS
   unfold extractSeek
   have h1 := placeFiles_steps c true root es fs
   split
-  · next fs1 er he => rw [he] at h1; exact h1
+  · next fs1 er he =>
+    rw [he] at h1
+    refine h1.trans (applyModes_steps c root _ fs1 ?_)
+    intro m hm
+    obtain ⟨e, he', rfl⟩ := List.mem_map.mp (mem_modeOrder hm).1
+    exact placed_enclosed c true root es fs e he'
   · next fs1 he =>
     rw [he] at h1
     refine h1.trans (applyModes_steps c root _ fs1 ?_)
@@ -217,13 +278,17 @@ theorem placeFiles_unsafe_at (c : Cfg) (chk : Bool) (root : Path) (pre post : Li
     · next fs2 he => exact ih fs2 hpre
 
 /-- The first unsafe entry that is reached: the run stops there with `InvalidArchive("Invalid file
-path")`, having done nothing for that entry or any later one, and no mode is applied at all. -/
+path")`, having done nothing for that entry or any later one; the modes recorded for the entries
+BEFORE it are applied (deepest first, up to the first `set_permissions` that fails), nothing else. -/
 theorem extractSeek_unsafe_at (c : Cfg) (root : Path) (pre post : List EntryView) (e : EntryView)
     (fs fs1 : FS) (hpre : placeFiles c true root pre fs = (fs1, none)) (ho : e.openErr = none)
     (hn : enclosedName e.name = none) :
-    extractSeek c root (pre ++ e :: post) fs = (fs1, some .invalidPath) := by
+    extractSeek c root (pre ++ e :: post) fs =
+      ((applyModes c root (modeOrder (pre.map fun e => (e.name, e.mode))) fs1).1, some .invalidPath) := by
   unfold extractSeek
-  rw [placeFiles_unsafe_at c true root pre post e fs fs1 hpre ho hn]
+  rw [placeFiles_unsafe_at c true root pre post e fs fs1 hpre ho hn,
+    placedCount_at c true root pre post e fs fs1 hpre (by simp [placeFile, ho, hn])]
+  simp
 
 theorem checkMetas_unsafe {ms : List (Name × Option Nat)} (h : ∃ m ∈ ms, enclosedName m.1 = none) :
     (checkMetas ms).isSome = true := by
